@@ -3,9 +3,10 @@
 prove      props/C02.v over model/PkgOps.v (state machine over the package graph with the
            lazyproperty caches the code has), reusing model/Ids.v (allocators), model/PackUri.v
            (part-name arithmetic) and model/Opc.v (walk, content-types item, rels order).
-correspond random public-API histories over the default template and over decks whose slide
-           part names are out of presentation order / non-contiguous (built with an independent
-           zip rewriter), executed on python-pptx and on the extracted model; after EVERY step
+correspond random public-API histories over the default template, over decks whose slide
+           part names are out of presentation order / non-contiguous and over decks with related
+           but unlisted slide parts (add_slide meets a taken part name; outside Inv) (built with
+           independent zip rewriters), executed on python-pptx and on the extracted model; after EVERY step
            the abstract states are compared (iteration order, part names, content types,
            relationship tables incl. target mode and the cached target_ref, r:* references,
            id lists, lazy caches); every saved package is compared member for member.
@@ -40,7 +41,7 @@ TB = [
     "model/Ids.v allocators (next_rId, next_partname, next_image_partname, next_media_partname, rename_slide_parts, _next_slide_partname), model/PackUri.v part-name arithmetic, model/Opc.v (depth-first walk, _ContentTypesItem, numeric rId order): reused, each tied by its own property's correspondence (C06, C19, C01) and again by this one",
     "tables default_content_types and the initial defaults of _ContentTypesItem are read from the live pptx.opc.spec at run time and handed to the model with every case; the relationship-type / content-type / template constants of model/PkgOps.v are compared with pptx.opc.constants on every run (case consts)",
     "lxml / zipfile / Pillow / XlsxWriter payloads are outside the model: a part's XML is represented by the r:* references it holds",
-    "the check's independent OPC reader (zipfile + lxml + posixpath) used by the oracle and to build the abstract input deck; the zip rewriter that renames slide members",
+    "the check's independent OPC reader (zipfile + lxml + posixpath) used by the oracle and to build the abstract input deck; the zip rewriters that rename slide members and remove p:sldId entries",
 ]
 ASSUME = [
     "_ImageParts / _MediaParts look for an existing part in iter_rels order (sources interleaved depth-first); the model scans package rels then parts in iter_parts order, which agrees unless two reachable image parts carry identical bytes (not generated)",
@@ -270,6 +271,26 @@ def with_foreign_parts(data, png):
     return out.getvalue()
 
 
+def unlist_slides(data, positions):
+    """Independent zip rewriter: the p:sldId entries at the given positions (presentation order, from 0) are removed from
+    ppt/presentation.xml; the relationships and the slide parts stay (related, unlisted slide parts)."""
+    zi = zipfile.ZipFile(io.BytesIO(data))
+    out = io.BytesIO()
+    zo = zipfile.ZipFile(out, "w", zipfile.ZIP_DEFLATED)
+    for n in zi.namelist():
+        b = zi.read(n)
+        if n == "ppt/presentation.xml":
+            root = etree.fromstring(b)
+            lst = root.find("{%s}sldIdLst" % NS_P)
+            kids = list(lst)
+            for k in positions:
+                lst.remove(kids[k])
+            b = etree.tostring(root, xml_declaration=True, encoding="UTF-8", standalone=True)
+        zo.writestr(n, b)
+    zo.close()
+    return out.getvalue()
+
+
 _DECKS = None
 
 
@@ -315,11 +336,20 @@ def decks():
     out["gaps_perm"] = rename_slides(rich, {1: 7, 2: 3, 3: 11, 4: 1})
     out["shift"] = rename_slides(rich, {1: 2, 2: 3, 3: 4, 4: 5})
     out["foreign"] = with_foreign_parts(rich, F.images[-1][0])
+    # related but unlisted slide parts whose names lie above the listed count (below it the first access of prs.slides
+    # renames a listed slide onto them: C06 / C13 unlisted-slide-partname-collision).  add_slide meets a taken
+    # conventional name: slide4.xml on the first, slide4.xml then slide5.xml (search going down past slide6.xml) on the second
+    out["unlisted_last"] = unlist_slides(rich, [3])
+    out["unlisted_gap"] = unlist_slides(rename_slides(rich, {1: 1, 2: 2, 3: 4, 4: 6}), [2, 3])
     _DECKS = out
     return out
 
 
 IRREGULAR = ("perm", "swap", "gaps", "gaps_perm", "shift")
+# decks that do not meet Inv (clause slides_ok: every reached part under /ppt/slides is listed): the theorems with the
+# hypothesis Inv say nothing there; C02_add_slide_name_fresh / C02_add_slide_new_part_fresh (no hypothesis on the state)
+# do, the correspondence and the oracle on every saved package are evaluated as everywhere else
+OUTSIDE_INV = ("unlisted_last", "unlisted_gap")
 
 
 def sha_capable_cts():
@@ -1278,6 +1308,18 @@ def directed_histories():
     return hs
 
 
+def directed_add_slide():
+    """add_slide where the conventional next part name may be taken (decks OUTSIDE_INV: by a related, unlisted slide
+    part), several times in a row, before and after a first access of prs.slides, then work on the new slides."""
+    F = Files.get()
+    img = (F.images[0][1], F.images[0][2], F.images[0][3])
+    hs = []
+    hs.append(("add-slides", [("SL", 6), ("SV",), ("SL", 1), ("SV",), ("SL", 8), ("SV",), ("SL", 6), ("SV",)]))
+    hs.append(("access-then-add-slides", [("AS",), ("SV",), ("SL", 6), ("SL", 6), ("SV",), ("SL", 6), ("SV",)]))
+    hs.append(("add-slides-then-work", [("SL", 6), ("SL", 6), ("PS", 2), ("PI", 3, img), ("NT", 2), ("JP", 2, 0, 3), ("SV",), ("CH", 3), ("SL", 5), ("SV",)]))
+    return hs
+
+
 def directed_worker(job):
     deck_name, name, ops = job
     if deck_name == "default":
@@ -1356,22 +1398,31 @@ def run(ck, tier, rng):
         global model_views
         model_views = lambda deck_name, ops_list, mode="n": [None] * len(ops_list)  # noqa
     djobs = [(d, name, ops) for d in ("default", "rich", "swap", "gaps", "foreign") for name, ops in directed_histories()]
+    djobs += [(d, name, ops) for d in OUTSIDE_INV + ("rich", "gaps") for name, ops in directed_add_slide()]
     with multiprocessing.Pool(procs) as pool:
         results = pool.map(directed_worker, djobs, chunksize=2)
         results += pool.map(worker, jobs, chunksize=max(1, nh // (procs * 8)))
     nsaves = 0
     inv_states = 0
     inv_false = []
+    outside_inv = 0
+    inv_wrongly_true = []
     for out in results:
         if out.get("model_error"):
             diffs.append("model runner: " + out["model_error"])
         for r in out["results"]:
             nsaves += r["nsaves"]
             inv_states += r["inv_states"]
+            if out["deck"] in OUTSIDE_INV and r["inv_states"] and not r["inv_false"]:
+                inv_wrongly_true.append("deck %s variant %s" % (out["deck"], r["variant"]))
             for step, op, text in r["inv_false"]:
+                if out["deck"] in OUTSIDE_INV:
+                    outside_inv += 1
+                    continue
                 inv_false.append("deck %s variant %s step %d op %r: %s; history %r" % (out["deck"], r["variant"], step, op, text, r["ops"][:step]))
             key = (out["deck"], tuple(map(tuple, map(flat, r["ops"]))))
-            ck.count(key, nontrivial(r["ops"], r["outcomes"]), "%s/%s" % (out["deck"] if out["deck"] in ("default", "rich") else "irregular", r["variant"]))
+            ck.count(key, nontrivial(r["ops"], r["outcomes"]), "%s/%s" % (out["deck"] if out["deck"] in ("default", "rich") else
+                                                                         "unlisted" if out["deck"] in OUTSIDE_INV else "irregular", r["variant"]))
             for o, res in zip(r["ops"], r["outcomes"]):
                 kk = "op:%s:%s" % (o[0], res[:1] if not res.startswith("R:") else res)
                 ck.dist[kk] = ck.dist.get(kk, 0) + 1
@@ -1396,13 +1447,18 @@ def run(ck, tier, rng):
         ck.violation("invariant", "the invariant Inv of props/C02.v (decidable form invb, evaluated by the extracted model) is false at %d states the histories reach, first: %s"
                      % (len(inv_false), inv_false[0][:900]),
                      {"theorem_or_correspondence": "C02_reachable / hypothesis Inv (init deck) of the C02 theorems", "states": inv_false[:5]}, concrete=False)
+    if inv_wrongly_true and not concrete:
+        ck.violation("invariant-outside", "invb is true on a deck built to break the clause slides_ok of Inv (a related, unlisted slide part): %s"
+                     % inv_wrongly_true[0], {"theorem_or_correspondence": "decidable form invb of Inv / decks OUTSIDE_INV", "states": inv_wrongly_true[:5]},
+                     concrete=False)
     ck.broken_build(oracle_found_concrete=len(ck.violations) > 0)
     return ck.finish(
-        rule="%d directed histories (relationships with two and three users: run links, shape links, jumps, same URL on two slides, two pictures of one image, notes-slide jumps; each set / one cleared / changed / set back / cleared in turn with a save after every stage, on 4 decks, as given and with a save at every prefix) + %d random histories of 1..%d public-API operations (21 operation kinds incl. refused calls and read accesses) over the default template, a deck with pictures/chart/notes/hyperlink and five copies of it with slide members renamed out of order / with gaps; each history runs as generated + final save and with a save at every prefix (for irregular decks half of those after a first prs.slides access); non-trivial = at least two graph-changing operations succeeded and a save followed" % (len(djobs) * 2, nh, maxlen),
+        rule="%d directed histories (relationships with two and three users: run links, shape links, jumps, same URL on two slides, two pictures of one image, notes-slide jumps; each set / one cleared / changed / set back / cleared in turn with a save after every stage, on 4 decks, as given and with a save at every prefix) + %d random histories of 1..%d public-API operations (21 operation kinds incl. refused calls and read accesses) over the default template, a deck with pictures/chart/notes/hyperlink, five copies of it with slide members renamed out of order / with gaps, one with parts of unknown classes and two with related but unlisted slide parts whose names add_slide meets (outside Inv: correspondence, oracle and the theorems without hypothesis on the state; %d directed add_slide histories on them); each history runs as generated + final save and with a save at every prefix (for irregular decks half of those after a first prs.slides access); non-trivial = at least two graph-changing operations succeeded and a save followed" % (len(djobs) * 2, nh, maxlen, 2 * len(directed_add_slide()) * len(OUTSIDE_INV)),
         trusted_base=TB, assumptions=ASSUME,
         extra={"correspondence_diffs": len(diffs), "saves_checked_by_oracle": nsaves, "constants_ok": consts_ok,
                "directed_histories": len(djobs) * 2,
                "states_on_which_invb_was_evaluated": inv_states, "states_with_invb_false": len(inv_false),
+               "histories_on_decks_outside_inv": outside_inv,
                "exhaustive": False},
     )
 
@@ -1443,7 +1499,7 @@ def replay(rec):
 
 CLAIM = {
     "tech": "Coq proof over a Gallina state machine of the package graph (parts, relationships, r:* references, lazyproperty caches) + extracted-model correspondence on random public-API histories + independent zip oracle at every prefix + re-open comparison",
-    "text": "22 theorems (C02_*) closed under the global context over a faithful model of the part/relationship operations (21 operation kinds incl. refused calls and read accesses): every operation preserves a state invariant Inv (C02_step, C02_reachable, no size bound), Inv gives Closed for every package any save of any history writes (C02_save_closed, C02_every_save_closed: unique members, one content type per part equal to the created/loaded one, every internal Target names the member of the part the relationship points to, every r:* id defined, officeDocument reaches the presentation part) and re-opening by name resolution gives back the graph (C02_reopen); drop_rel reference counting (C02_drop_rel_*), the implicit-relationship edge (C02_implicit_rel_*) and the regression witness of the repaired stale-Target defect (C02_stale_target_regression). The model is tied to python-pptx by executing random public-API histories on both and comparing the whole abstract state after every step and every saved zip; an independent oracle (zipfile + lxml) evaluates the statement on every saved file and re-opens it.",
-    "note": "The XML of a part is represented by the r:* references it holds (shape XML itself is C03); shape kinds without parts collapse to one text-box operation; lxml, zipfile, Pillow, XlsxWriter payloads are outside the model; C02_reopen states the loader's name resolution structurally (that _PackageLoader performs it is C01); Override part names are compared exactly in the model (names differing only in case are outside; the oracle compares them the OPC way); hypotheses Inv(init deck) and tables_ok are evaluated in their decidable, proved-sound forms on every deck, every reached state and the live default_content_types; use-after-remove of a layout object and 2^31 slides are outside the operation alphabet.",
+    "text": "23 theorems (C02_*) closed under the global context over a faithful model of the part/relationship operations (21 operation kinds incl. refused calls and read accesses): every operation preserves a state invariant Inv (C02_step, C02_reachable, no size bound), Inv gives Closed for every package any save of any history writes (C02_save_closed, C02_every_save_closed: unique members, one content type per part equal to the created/loaded one, every internal Target names the member of the part the relationship points to, every r:* id defined, officeDocument reaches the presentation part) and re-opening by name resolution gives back the graph (C02_reopen); the part name add_slide gives the new slide (_next_slide_partname as repaired by 086e8ef1) is a slide part name no reached part carries in EVERY state, invariant or not (C02_add_slide_name_fresh, C02_add_slide_new_part_fresh, witness deck with a related but unlisted slide part: C02_add_slide_unlisted_witness), and the conventional slide<n+1>.xml under Inv (C02_add_slide_name_conventional); drop_rel reference counting (C02_drop_rel_*), the implicit-relationship edge (C02_implicit_rel_*) and the regression witness of the repaired stale-Target defect (C02_stale_target_regression). The model is tied to python-pptx by executing random public-API histories on both and comparing the whole abstract state after every step and every saved zip; an independent oracle (zipfile + lxml) evaluates the statement on every saved file and re-opens it.",
+    "note": "The XML of a part is represented by the r:* references it holds (shape XML itself is C03); shape kinds without parts collapse to one text-box operation; lxml, zipfile, Pillow, XlsxWriter payloads are outside the model; C02_reopen states the loader's name resolution structurally (that _PackageLoader performs it is C01); Override part names are compared exactly in the model (names differing only in case are outside; the oracle compares them the OPC way); hypotheses Inv(init deck) and tables_ok are evaluated in their decidable, proved-sound forms on every deck, every reached state and the live default_content_types (two decks with a related but unlisted slide part are outside Inv on purpose: there the correspondence, the oracle and the theorems without hypothesis on the state apply; Inv still asks that every reached part under /ppt/slides be listed, which is what excludes the rename collision of the first access of prs.slides, C06 / C13 unlisted-slide-partname-collision); use-after-remove of a layout object and 2^31 slides are outside the operation alphabet.",
     "ref": "6/C02",
 }
